@@ -33,12 +33,20 @@ def affine(e):
     return coeffs, const
 
 
-def cons(e, op):
-    """constraints (a list of alternatives, each a list of atomic constraints) for  e op 0"""
+def cons(e, op, int_atoms=()):
+    """constraints (a list of alternatives, each a list of atomic constraints) for  e op 0.
+    When every atom of e is integer-valued (int_atoms) and all coefficients are integers, strict comparisons are
+    tightened (e < 0  <=>  e + 1 <= 0), which makes the real relaxation exact for such constraints."""
     af = affine(e)
     if af is None:
         return None
     c, k = af
+    if c and all(a in int_atoms for a in c) and all(v.denominator == 1 for v in c.values()) and k.denominator == 1 and op in ("<", ">", "!="):
+        if op == "<":
+            return cons(e + alg.const(1), "<=")
+        if op == ">":
+            return cons(e - alg.const(1), ">=")
+        return [cons(e + alg.const(1), "<=")[0], cons(e - alg.const(1), ">=")[0]]
     neg = ({a: -v for a, v in c.items()}, -k)
     if op == "<":
         return [[(c, k, True)]]
